@@ -2,7 +2,7 @@ from checks import searchfam
 
 
 def run(ctx):
-    searchfam.run_family(ctx, 1500, 100000)
+    searchfam.run_family(ctx, 1500, 60000)
     # alternative routes of the single-via algorithm (forward half + re-oriented reverse half)
     from lib import common
     out = ctx.harness(["ksp", "--random", "400" if ctx.tier == "quick" else "30000", "--maxv", "8"], timeout=3000)
